@@ -641,7 +641,7 @@ func ruleFrameRestore(p *Program, r *Reporter) {
 				// the saved value may travel in another form (a field of a struct
 				// that is handed to a named clean-up function, say): follow it to
 				// where it was read
-				for _, body := range deferredBodies(re.fn, re.call) {
+				for _, body := range withCallees(p, deferredBodies(re.fn, re.call)) {
 					for _, b := range body.Blocks {
 						for _, ins := range b.Instrs {
 							st, isSt := ins.(*ssa.Store)
@@ -915,7 +915,7 @@ func ruleScopeRestore(p *Program, r *Reporter) {
 		}
 		paramIdx, found := -1, false
 		localOK, localWhy := false, ""
-		for _, body := range deferredBodies(re.fn, re.call) {
+		for _, body := range withCallees(p, deferredBodies(re.fn, re.call)) {
 			for _, c := range callsTo(body, er.truncate) {
 				found = true
 				for _, o := range outerOrigins(c.Common().Args[1]) {
@@ -1710,6 +1710,7 @@ func balancedState(p *Program, k string) string {
 		return ""
 	}
 	incs, decs, ins, dels, other := 0, 0, 0, 0, 0
+	pushes, pops := 0, 0
 	balanced := true
 	for _, fn := range p.LibFns {
 		root := fn
@@ -1760,6 +1761,25 @@ func balancedState(p *Program, k string) string {
 							dels++
 						}
 					}
+					if listPop(v.Call.StaticCallee()) && len(v.Call.Args) == 1 && fieldKey(v.Call.Args[0]) == fk {
+						pops++
+					}
+				case *ssa.Call:
+					// the field kept as a list: an element pushed, the pop deferred
+					if listPush(v.Call.StaticCallee()) && fieldKey(v.Call.Args[0]) == fk {
+						pushes++
+						deferred := false
+						for _, rb := range root.Blocks {
+							for _, ri := range rb.Instrs {
+								if d, ok := ri.(*ssa.Defer); ok && listPop(d.Call.StaticCallee()) && len(d.Call.Args) == 1 && fieldKey(d.Call.Args[0]) == fk {
+									deferred = true
+								}
+							}
+						}
+						if !deferred {
+							balanced = false
+						}
+					}
 				}
 			}
 		}
@@ -1769,6 +1789,9 @@ func balancedState(p *Program, k string) string {
 	}
 	if incs > 0 && decs > 0 {
 		return fmt.Sprintf("balanced counter: %d increment(s), each undone by a deferred decrement registered in the same function (restored on every exit, a panic included)", incs)
+	}
+	if pushes > 0 && pops > 0 && ins == 0 && incs == 0 {
+		return fmt.Sprintf("balanced list: %d push(es), each undone by a deferred pop in the same function (restored on every exit, a panic included)", pushes)
 	}
 	if ins > 0 && dels > 0 {
 		return fmt.Sprintf("balanced set: %d insertion(s), each undone by a deferred delete in the same function (restored on every exit, a panic included)", ins)
@@ -1976,6 +1999,34 @@ func ruleStateCensus(p *Program, r *Reporter) {
 						add("field "+describe(ad), fn, x.Pos())
 					case *ssa.Global:
 						add("var "+describe(ad), fn, x.Pos())
+					case *ssa.Parameter:
+						// a store through a pointer the callers hand in: the
+						// state is whatever they point it at
+						k := -1
+						for i, q := range fn.Params {
+							if q == ad {
+								k = i
+							}
+						}
+						for _, site := range staticCallSites(p, fn) {
+							args := site.Common().Args
+							if k < 0 || k >= len(args) {
+								continue
+							}
+							switch tgt := args[k].(type) {
+							case *ssa.FieldAddr:
+								if !localBase(tgt.X, 0) {
+									add("field "+describe(tgt), fn, x.Pos())
+								}
+							case *ssa.Global:
+								add("var "+describe(tgt), fn, x.Pos())
+							case *ssa.Alloc:
+							default:
+								if !localBase(tgt, 0) {
+									add("value "+typeStr(tgt.Type()), fn, x.Pos())
+								}
+							}
+						}
 					case *ssa.IndexAddr:
 						if localBase(ad.X, 0) {
 							continue
@@ -2175,4 +2226,25 @@ func undoneByCallers(p *Program, fn *ssa.Function, fk, kind string) bool {
 		}
 	}
 	return true
+}
+
+// withCallees: the functions, and the library functions they call (two levels
+// down): a clean-up function may leave the restoring to a method of the saved
+// state.
+func withCallees(p *Program, fns []*ssa.Function) []*ssa.Function {
+	seen := map[*ssa.Function]bool{}
+	var out []*ssa.Function
+	for _, f := range fns {
+		if !seen[f] {
+			seen[f] = true
+			out = append(out, f)
+		}
+		for _, g := range staticCalleesWithin(p, f, 2) {
+			if !seen[g] {
+				seen[g] = true
+				out = append(out, g)
+			}
+		}
+	}
+	return out
 }
